@@ -164,7 +164,8 @@ func partA(col *collector) partResult {
 	p, s := positionIds()
 	c, _ := safeCombine(p, s)
 	pp, sp, _ := safeSeparate(c[:7])
-	r.Samples = []any{map[string]any{"part": "a", "input": "position-encoding ids, prefix length 7", "combined_prefix_bytes": []byte(c[:7]), "primary_part_bytes": []byte(pp), "secondary_part_bytes": []byte(sp)}}
+	r.Samples = []any{map[string]any{"part": "a", "input": "position-encoding ids, prefix length 7", "combined_prefix_bytes": ints(c[:7]), "primary_part_bytes": ints(pp), "secondary_part_bytes": ints(sp),
+		"reading": "primary id = bytes 0..63, secondary id = bytes 64..127, so every byte names the id and the position it came from"}}
 	return r
 }
 
@@ -181,4 +182,12 @@ func replayA(col *collector, m map[string]any) error {
 		}
 	}
 	return fmt.Errorf("unknown id pair %q", str(m, "pair"))
+}
+
+func ints(s string) []int {
+	out := make([]int, len(s))
+	for i := range s {
+		out[i] = int(s[i])
+	}
+	return out
 }
